@@ -298,7 +298,8 @@ def view_of_reader(f, kind='uamiv'):
           f32bits(f.XCELL), f32bits(f.YCELL), nx, ny, None, int(f.CPROJ) & 0xffffffff, int(f.ISTAG) & 0xffffffff,
           f32bits(f.TLAT1), f32bits(f.TLAT2)]
     return dict(nspec=len(names), nx=nx, ny=ny, nz=nz, nt=nt, species=sp, tflag=flags('TFLAG'),
-                etflag=flags('ETFLAG') if 'ETFLAG' in f.variables else None, hdr=hdrw, grid=gw, data='|'.join(dat))
+                etflag=flags('ETFLAG') if 'ETFLAG' in f.variables else None, hdr=hdrw, grid=gw, data='|'.join(dat),
+                tstep_attr=(int(f.TSTEP) if hasattr(f, 'TSTEP') else None))
 
 
 def diff_view(model_out, view):
